@@ -179,6 +179,15 @@ pub fn check(cx: &Cx, rep: &mut Report) {
                                 }
                             }
                         }
+                        // state intact: the actor value is the same one, no lifecycle callback runs because of the timeout
+                        let restart_requested = ix.ops.iter().any(|o| o.tag == af.tag && o.op == OpK::Restart && o.executed())
+                            || ix.ev.iter().any(|e| matches!(&e.k, K::Effect { actor, what, .. } if *actor == af.task && *what == "ctx_restart"));
+                        if !restart_requested {
+                            rep.premise("C11.R3.no_restart_by_timeout");
+                            if af.incs.len() > 1 {
+                                rep.fail(P, "R3", "restarted_by_timeout", format!("actor tag {} went through {} incarnations after a handler timeout at #{s} although nobody requested a restart", af.tag, af.incs.len()), vec![s, af.incs[1].s_in]);
+                            }
+                        }
                         // state intact: checked through the fold rule (an abandoned invocation leaves no trace)
                         let mut st = (0u64, 0u64);
                         for inv in &invs {
